@@ -28,6 +28,7 @@ pub fn run(pid: &str, tier: &str, seed: u64) {
   match pid {
     "C06" => crate::o_sharks::c06(tier, seed),
     "C07" => crate::o_sharks::c07(tier, seed),
+    "C08" => crate::o_wire::c08(tier, seed),
     _ => {
       eprintln!("no oracle for {}", pid);
       std::process::exit(2);
